@@ -843,6 +843,6 @@ fire('cache12-known-directories', ['C17', 'C16'], ['CACHE-12'], 'the cache remem
 # round 14: Grammar.parse
 fire('par6c-flag-to-tokenizer', ['C07'], ['PAR-6c'], 'the strict / recovering flag is also handed to the tokenizer (rt14-C07)',
      (GRAMMAR, "        tokens = self._tokenizer(lines)\n", "        tokens = self._tokenizer(lines, error_recovery=error_recovery)\n"),
-     (GRAMMAR, "    def _tokenize_lines(self, lines, **kwargs):", "    def _tokenize_lines(self, lines, error_recovery=True, **kwargs):"))
+     (GRAMMAR, "    def _tokenize_lines(self, lines, **kwargs) -> Iterator[PythonToken]:", "    def _tokenize_lines(self, lines, error_recovery=True, **kwargs) -> Iterator[PythonToken]:"))
 fire('src1-strip-eval-input', ['C01', 'C06'], ['SRC-1'], 'the text of an eval_input parse is stripped before it is tokenized (rt14-C06)',
      (GRAMMAR, "        code = python_bytes_to_unicode(code)\n", "        code = python_bytes_to_unicode(code)\n        if start_symbol == 'eval_input':\n            code = code.strip()\n"))
